@@ -463,14 +463,14 @@ pub fn plan(prop: &str, tier: &str, seed: u64) -> Option<Plan> {
             p.eval_counter = "c06_crash_points";
             p.min_eval = 500;
             p.min_distinct = 50;
-            p.rule = "history h = generator(seed, h): writable file-backed arena (freelist kind x reserved x min segment size x capacity), prelude that builds a free list with live detached neighbours and 0..100 bytes of fresh space, then 4..10 operations under test (alloc_bytes on fast and slow path, alloc::<T>, dealloc of a live range: on top / insert / too small, discard_freelist); for each operation EVERY crash point is enumerated: memory() is copied inside the `before` callback of every atomic access of the operation and once after its last event (unsync::Arena: operation boundaries), each image is written to a fresh file, reopened with map_mut (same flavour, every 4th also the other flavour) and put through the recovery oracle: open succeeds, cursor within [data_offset, capacity], every range returned before and not released before the crash holds its pattern, an allocation storm under a step budget of 20000 atomic accesses per call terminates and never returns a range intersecting them (the in-flight range is don't-care); a sample of crash points is replayed by a child process that really abort()s inside the same callback and whose file must equal the snapshot; distinct_nontrivial = distinct (operation kind, event index, access kind, call site) crash-point classes".into();
+            p.rule = "history h = generator(seed, h): writable file-backed arena (freelist kind x reserved x min segment size x capacity), prelude that builds a free list with live detached neighbours and 0..100 bytes of fresh space, then 4..10 operations under test (alloc_bytes on fast and slow path, alloc::<T>, alloc_aligned_bytes::<T>(extra), dealloc of a live range: on top / insert / too small, discard_freelist, set_minimum_segment_size, increase_discarded); for each operation EVERY crash point is enumerated: memory() is copied inside the `before` callback of every atomic access of the operation and once after its last event (unsync::Arena: operation boundaries), each image is written to a fresh file, reopened with map_mut (same flavour, every 4th also the other flavour) and put through the recovery oracle: open succeeds, cursor within [data_offset, capacity], every range returned before and not released before the crash holds its pattern, lies below the reopened cursor and intersects no segment of the reopened free list, an allocation storm (byte, typed and aligned requests, some given back) under a step budget of 20000 atomic accesses per call terminates and never returns a range intersecting them (the in-flight range is don't-care); a sample of crash points is replayed by a child process that really abort()s inside the same callback and whose file must equal the snapshot; distinct_nontrivial = distinct (operation kind, event index, access kind, call site) crash-point classes".into();
             let (count, secs) = if quick { (24, 45) } else { (4000, 1200) };
             for k in 0..12u64 {
                 let mut j = Job::new(&format!("crash-{}", k), &bin("rel"), sv(&["crash", "--seed", &seed.to_string(), "--from", &k.to_string(), "--stride", "12", "--count", &count.to_string(), "--secs", &secs.to_string()]));
                 j.timeout_s = secs * 3 + 120;
                 p.jobs.push(j);
             }
-            p.required_nonzero = sv(&["c06_images_reopened", "c06_recovery_storms_completed", "c06_abort_validations", "c06_points.alloc_bytes", "c06_points.dealloc", "c06_points.discard_freelist", "c06_points.alloc_typed"]);
+            p.required_nonzero = sv(&["c06_images_reopened", "c06_recovery_storms_completed", "c06_abort_validations", "c06_points.alloc_bytes", "c06_points.dealloc", "c06_points.discard_freelist", "c06_points.alloc_typed", "c06_points.alloc_aligned", "c06_freelist_vs_live_checks"]);
             p.extra_prefixes = vec!["c06_"];
             p.assumptions = vec![
                 "process death, not power loss: the crash image is what the page cache holds (validated against real abort()ed children on a sample)".into(),
